@@ -380,13 +380,26 @@ def write_evidence(pid, mod, tier, seed, total, wall, nshards, n_viol, n_known):
         'violations': n_viol,
         'repo': REPO,
     }
-    d = os.path.join(VERIF_DIR, 'evidence')
+    # evidence/ describes runs against /repo itself; runs against a scratch tree (VERIF_REPO, mutation testing) go aside
+    d = os.path.join(VERIF_DIR, 'evidence') if os.path.realpath(REPO) == '/repo' else os.path.join(VERIF_DIR, 'replays', '_scratch_tree_evidence')
     os.makedirs(d, exist_ok=True)
     tmp = os.path.join(d, pid + '.json.tmp')
     with open(tmp, 'w') as fh:
         json.dump(ev, fh, indent=1, sort_keys=True)
         fh.write('\n')
     os.replace(tmp, os.path.join(d, pid + '.json'))
+
+
+LUA_VERSIONS = (8, 0, 5, 16, 29, 33, 41, 255)
+
+
+def lua_version(src):
+    """The cart version a source is loaded under: a deterministic function of the source, so that every version of
+    the list meets every family of sources (the lexer/parser take the version and must not depend on it)."""
+    import zlib
+    if isinstance(src, (list, tuple)):
+        src = b''.join(src)
+    return LUA_VERSIONS[zlib.crc32(bytes(src)) % len(LUA_VERSIONS)]
 
 
 def split_range(n, k):
